@@ -2,6 +2,7 @@ package lib
 
 import (
 	"fmt"
+	"github.com/go-i2p/crypto/rsa"
 	"time"
 
 	"github.com/go-i2p/common/certificate"
@@ -90,6 +91,31 @@ func SigningKeyOf(sigType int, keyBytes []byte) (types.SigningPublicKey, error) 
 		k := make(ed25519.Ed25519PublicKey, len(keyBytes))
 		copy(k, keyBytes)
 		return k, nil
+	case 3:
+		if len(keyBytes) != 132 {
+			return nil, fmt.Errorf("p521 key must be 132 bytes")
+		}
+		var k ecdsa.ECP521PublicKey
+		copy(k[:], keyBytes)
+		return k, nil
+	case 4:
+		k, err := rsa.NewRSA2048PublicKey(keyBytes)
+		if err != nil {
+			return nil, err
+		}
+		return *k, nil
+	case 5:
+		k, err := rsa.NewRSA3072PublicKey(keyBytes)
+		if err != nil {
+			return nil, err
+		}
+		return *k, nil
+	case 6:
+		k, err := rsa.NewRSA4096PublicKey(keyBytes)
+		if err != nil {
+			return nil, err
+		}
+		return *k, nil
 	}
 	return nil, fmt.Errorf("no library key type for signing type %d", sigType)
 }
